@@ -697,7 +697,10 @@ func ShowObjects(scope *ReferenceScope, expr parser.ShowObjects) (string, error)
 	case ShowRuninfo:
 		for _, ri := range RuntimeInformatinList {
 			label := string(parser.VariableSign) + string(parser.RuntimeInformationSign) + ri
-			p, _ := GetRuntimeInformation(scope.Tx, parser.RuntimeInformation{Name: ri})
+			p, err := GetRuntimeInformation(scope.Tx, parser.RuntimeInformation{Name: ri})
+			if err != nil {
+				return "", NewSystemError(err.Error())
+			}
 
 			w.WriteSpaces(19 - len(label))
 			w.WriteColorWithoutLineBreak(label, option.LableEffect)
